@@ -42,7 +42,7 @@ EXHAUSTIVE = ['all 2047 single-word substitutions at each sampled (sentence, pos
 
 K_PASS_NFKD = 'C14/to_seed/passphrase-not-nfkd'
 K_FROMPASS_LANG = 'C14/from_passphrase/non-english-sentence-refused'
-K_BYTES_HEX = 'C14/to_mnemonic/bytes-entropy-read-as-hexstring'
+K_BYTES_HEX = 'C14/checksum/entropy-bytes-unhexlified'
 
 N = ec.N
 _PASS = [
@@ -208,9 +208,9 @@ def chk_entropy(case, col):
             except Exception as e2:
                 col.violation(None, 'to_mnemonic(check_on_curve=False) raised %r' % (e2,), case, repr(e2), exp_sentence)
         else:
-            col.violation(_bytes_hex_key(m, ent, form, exp_sentence), 'to_mnemonic refused a valid entropy: %r' % (e,), case, repr(e), exp_sentence)
+            col.violation(_bytes_hex_key(m, ent, words), 'to_mnemonic refused a valid entropy: %r' % (e,), case, repr(e), exp_sentence)
     if got is not None and got != exp_sentence:
-        col.violation(_bytes_hex_key(m, ent, form, exp_sentence),
+        col.violation(_bytes_hex_key(m, ent, words),
                       'to_mnemonic(%s, %d-byte %s entropy) is not the BIP39 sentence' % (lang, len(ent), pattern), case, got, exp_sentence)
 
     # -- sentence -> entropy (judged on the reference sentence, independent of the encoder)
@@ -221,7 +221,7 @@ def chk_entropy(case, col):
         if bytes(back) != ent:
             col.violation(None, 'to_entropy(%s sentence, %s) returned another entropy' % (lang, spelling), case, back, ent)
     except Exception as e:
-        col.violation(None, 'to_entropy refused a valid %s sentence (%s spelling): %r' % (lang, spelling, e), case, repr(e), ent)
+        col.violation(_asciihex_key(m, ent, e, words), 'to_entropy refused a valid %s sentence (%s spelling): %r' % (lang, spelling, e), case, repr(e), ent)
 
     # -- seed
     col.probe('to_seed')
@@ -233,10 +233,10 @@ def chk_entropy(case, col):
                 key = K_PASS_NFKD
             col.violation(key, 'to_seed(%s sentence [%s], passphrase class %s) is not the BIP39 seed' % (lang, spelling, pcls), case, seed, exp_seed)
     except Exception as e:
-        col.violation(None, 'to_seed refused a valid %s sentence: %r' % (lang, e), case, repr(e), exp_seed)
+        col.violation(_asciihex_key(m, ent, e, words), 'to_seed refused a valid %s sentence: %r' % (lang, e), case, repr(e), exp_seed)
 
     # -- HDKey.from_passphrase: master key of the BIP39 seed
-    if case.get('hd', True):
+    if case.get('hd', True) and not _asciihex(ent):     # (validation of such entropy fails by K_BYTES_HEX, judged above)
         col.probe('from_passphrase')
         try:
             xm = ref32.master(exp_seed)
@@ -263,13 +263,35 @@ def chk_entropy(case, col):
                 col.violation(key, 'HDKey.from_passphrase refused a valid %s sentence: %r' % (lang, e), case, repr(e), 'master key of the BIP39 seed')
 
 
-def _bytes_hex_key(m, ent, form, exp_sentence):
-    """Feature ablation for entropy given as bytes that happen to spell hexadecimal digits (to_bytes un-hexlifies them):
-    the key is assigned only when the feature is present and the same entropy in the unambiguous hex form heals the case."""
-    if form != 'bytes' or any(c not in b'0123456789abcdefABCDEF' for c in ent):
+def _asciihex(ent):
+    return all(c in b'0123456789abcdefABCDEF' for c in ent)
+
+
+def _asciihex_key(m, ent, exc, words):
+    """Refusal of a valid sentence whose entropy bytes spell hexadecimal digits: Mnemonic.checksum() un-hexlifies them.
+    Recognised by the feature, the shape of the refusal, and ablation (the sentence of the neighbouring entropy whose
+    first byte is not a hex digit is accepted)."""
+    if not _asciihex(ent) or not isinstance(exc, ValueError):
         return None
+    if not (str(exc).startswith('Invalid checksum') or 'divisible by 32' in str(exc)):
+        return None
+    ent2 = bytes([ent[0] ^ 0x80]) + ent[1:]
     try:
-        healed = m.to_mnemonic(ent.hex(), check_on_curve=False) == exp_sentence
+        healed = bytes(m.to_entropy(ref.to_mnemonic(ent2, words))) == ent2
+    except Exception:
+        healed = False
+    return K_BYTES_HEX if healed else None
+
+
+def _bytes_hex_key(m, ent, words):
+    """Same mechanism seen from to_mnemonic (wrong sentence or 'divisible by 32' refusal), for the bytes and the hex
+    form alike (checksum() un-hexlifies the decoded bytes once more). Feature ablation: the neighbouring entropy whose
+    first byte is not a hex digit gives the reference sentence."""
+    if not _asciihex(ent):
+        return None
+    ent2 = bytes([ent[0] ^ 0x80]) + ent[1:]
+    try:
+        healed = m.to_mnemonic(ent2, check_on_curve=False) == ref.to_mnemonic(ent2, words)
     except Exception:
         healed = False
     return K_BYTES_HEX if healed else None
@@ -469,7 +491,7 @@ def run_shard(spec, col):
         lang = langs[g % len(langs)]
         nbytes = ref.ENT_BYTES[(g // len(langs)) % 5]
         pattern = rnd.choice(_patterns(nbytes))
-        form = 'bytes' if (pattern == 'asciihex' or rnd.random() < 0.5) else 'hex'
+        form = 'bytes' if rnd.random() < 0.5 else 'hex'
         ent = _pattern_entropy(rnd, nbytes, pattern)
         pcls, pw = _PASS[rnd.randrange(len(_PASS))]
         if pcls == 'ascii' and rnd.random() < 0.3:
